@@ -291,6 +291,14 @@ func dependsThroughCalls(v, target ssa.Value, depth int, seen map[ssa.Value]bool
 			}
 		}
 	}
+	// a local that holds a copy of a struct (a by-value parameter spilled for field access)
+	if a, ok := v.(*ssa.Alloc); ok {
+		for _, ref := range core.Referrers(a) {
+			if st, ok := ref.(*ssa.Store); ok && st.Addr == ssa.Value(a) && dependsThroughCalls(st.Val, target, depth+1, seen) {
+				return true
+			}
+		}
+	}
 	var ops []*ssa.Value
 	for _, o := range in.Operands(ops) {
 		if *o != nil && dependsThroughCalls(*o, target, depth+1, seen) {
@@ -570,6 +578,7 @@ func runC12(c *Ctx) {
 	}
 	checkClones(c, "recovery-clone", "pkg/sql/parser", "Parser", "Parse", parseLoopDeltas[2:3])
 	c12Anchor(c, p, m)
+	c12SyncKeywords(c, p)
 }
 
 // c01AdvanceEOFQuiet re-checks advance()'s end-of-input store for C12 (termination depends on it).
